@@ -360,6 +360,11 @@ func (s *grpcServer) Write(srv bytestream.ByteStream_WriteServer) error {
 	var resp bytestream.WriteResponse
 	pr, pw := io.Pipe()
 
+	// Make sure that the receive goroutine below cannot remain blocked in
+	// pw.Write when we return before the reader side consumed everything
+	// (e.g. when the disk cache rejected the data part-way).
+	defer func() { _ = pr.Close() }()
+
 	putResult := make(chan error, 1)
 	recvResult := make(chan error, 1)
 	resourceNameChan := make(chan string, 1)
